@@ -33,7 +33,8 @@ REL = None
 
 
 def floors(tier):
-    return {"requests": 20000, "repeat_requests_checked": 2000, "fd_grads_compared": 2000, "__nontrivial__": 100}
+    return {"requests": 20000, "repeat_requests_checked": 2000, "fd_grads_compared": 2000, "histories_over_points_one_ulp_apart": 200, "histories_with_transient_faults": 400,
+            "requests_failing_in_the_user_function": 300, "__nontrivial__": 100}
 
 
 def exhaustive(tier):
@@ -59,6 +60,26 @@ def objective(n):
     return f, g
 
 
+K66 = 2.0 ** 66
+
+
+def objective_resolving(n):
+    """0.5*sum((2^66 x_i)^2): at points of size 2^-66 a difference of one unit in the last place of x changes the value and
+    every gradient component (multiplications by powers of two are exact)."""
+
+    def f(x):
+        return 0.5 * np.sum((K66 * x) ** 2)
+
+    def g(x):
+        return K66 * (K66 * x)
+
+    return f, g
+
+
+class TransientFault(Exception):
+    """raised once by the user's objective / gradient (a failed simulation run)"""
+
+
 def default_factory(fun, x0, jac, bounds, eps, rel):
     from lbfgsb.scalar_function import prepare_scalar_function
 
@@ -68,7 +89,7 @@ def default_factory(fun, x0, jac, bounds, eps, rel):
 class Driver:
     """Drives one wrapper instance through a history and checks every answer."""
 
-    def __init__(self, mode, n, lb, ub, x_init, out: Outcome, factory=default_factory, mutate=True):
+    def __init__(self, mode, n, lb, ub, x_init, out: Outcome, factory=default_factory, mutate=True, resolving=False, fail_f=(), fail_g=()):
         from scipy.optimize._numdiff import approx_derivative as ref_ad
 
         self.ref_ad = ref_ad
@@ -76,20 +97,27 @@ class Driver:
         self.out = out
         self.mutate = mutate
         self.lb, self.ub = lb, ub
-        self.fp, self.gp = objective(n)
+        self.fp, self.gp = objective_resolving(n) if resolving else objective(n)
+        self.fail_f, self.fail_g = set(fail_f), set(fail_g)  # indices of the user-function calls that raise (once each)
         self.flog = []  # points received by the user objective during the current request
         self.nf_total = 0
         self.ng_total = 0
         self.nad_total = 0
 
         def fun(x, *a):
+            k = self.nf_total
             self.nf_total += 1
+            if k in self.fail_f:
+                raise TransientFault(f"objective call #{k} failed")
             self.flog.append(np.array(x, copy=True))
             v = self.fp(x)
             return v
 
         def jac(x, *a):
+            k = self.ng_total
             self.ng_total += 1
+            if k in self.fail_g:
+                raise TransientFault(f"gradient call #{k} failed")
             return self.gp(np.array(x, copy=True))
 
         self.sf = factory(fun, x_init.copy(), jac if mode == "callable" else mode, (lb, ub), EPS_ABS, REL)
@@ -134,12 +162,28 @@ class Driver:
             arg = np.array(point, dtype=float, copy=True)
         same_as_prev = self.prev_point is not None and np.array_equal(self.prev_point, point)
         nad0 = _AD_COUNT[0]
-        if op == "fun":
-            ans_f, ans_g = sf.fun(arg), None
-        elif op == "grad":
-            ans_f, ans_g = None, sf.grad(arg)
-        else:
-            ans_f, ans_g = sf.fun_and_grad(arg)
+        try:
+            if op == "fun":
+                ans_f, ans_g = sf.fun(arg), None
+            elif op == "grad":
+                ans_f, ans_g = None, sf.grad(arg)
+            else:
+                ans_f, ans_g = sf.fun_and_grad(arg)
+        except TransientFault:
+            # the user's function failed during this request: nothing is known at this point afterwards; the next request (there
+            # or elsewhere) must again be answered by a fresh evaluation. Counters are re-based on the wrapper's own (whether a
+            # failed call counts is not part of the statement)
+            out.count("requests")
+            out.count("requests_failing_in_the_user_function")
+            self.nad_own += _AD_COUNT[0] - nad0
+            self.nf_total, self.fail_f = sf.nfev, {k - self.nf_total + sf.nfev for k in self.fail_f if k >= self.nf_total}
+            if self.mode == "callable":
+                self.ng_total, self.fail_g = sf.ngev, {k - self.ng_total + sf.ngev for k in self.fail_g if k >= self.ng_total}
+            else:
+                self.nad_own = sf.ngev
+            self.prev_point = None
+            self.f_known = self.g_known = False
+            return
         self.nad_own += _AD_COUNT[0] - nad0
         if ans_g is not None:
             raw_g = ans_g
@@ -228,9 +272,18 @@ def alphabet(n=2):
     return lb, ub, [a, b, c]
 
 
-def run_history(mode, hist, scale_pos, mutate, out, factory=default_factory, n=2, label=""):
-    lb, ub, pts = alphabet(n)
-    drv = Driver(mode, n, lb, ub, pts[0], out, factory=factory, mutate=mutate)
+def alphabet_ulp(n=2):
+    """three points of size 2^-66 that differ by one and two units in the last place in every coordinate"""
+    lb, ub, _ = alphabet(n)
+    d0 = (1.0 + 0.25 * np.arange(n)) / K66
+    d1 = np.nextafter(d0, np.inf)
+    d2 = np.nextafter(d1, np.inf)
+    return lb, ub, [d0, d1, d2]
+
+
+def run_history(mode, hist, scale_pos, mutate, out, factory=default_factory, n=2, label="", ulp=False, fail_f=(), fail_g=()):
+    lb, ub, pts = alphabet_ulp(n) if ulp else alphabet(n)
+    drv = Driver(mode, n, lb, ub, pts[0], out, factory=factory, mutate=mutate, resolving=ulp, fail_f=fail_f, fail_g=fail_g)
     for k, sym in enumerate(hist):
         if scale_pos is not None:
             if k == scale_pos:
@@ -335,7 +388,18 @@ def run(spec):
                 Lr = int(rng.integers(7, 31))
                 hist = tuple(int(v) for v in rng.integers(0, 9, Lr))
                 sp = int(rng.integers(0, Lr))
-                run_history(mode, hist, sp, [True, False, "reuse"][int(rng.integers(0, 3))], out, n=n, label=f"random n={n} scale@{sp} ")
+                variant = ("plain", "ulp", "faults", "faults")[j % 4]
+                kw = {}
+                if variant == "ulp":
+                    kw["ulp"] = True  # consecutive request points one / two units in the last place apart
+                    out.count("histories_over_points_one_ulp_apart")
+                elif variant == "faults":
+                    # a few user-function calls fail once (exception), early enough to be followed by further requests
+                    kw["fail_f"] = set(int(v) for v in rng.integers(1, max(2, Lr), int(rng.integers(1, 4))))
+                    kw["fail_g"] = set(int(v) for v in rng.integers(1, max(2, Lr // 2), int(rng.integers(0, 3))))
+                    hist = tuple(h if (i == 0 or rng.random() < 0.6) else hist[i - 1] for i, h in enumerate(hist))  # many repeats
+                    out.count("histories_with_transient_faults")
+                run_history(mode, hist, sp, [True, False, "reuse"][int(rng.integers(0, 3))], out, n=n, label=f"random[{variant}] n={n} scale@{sp} ", **kw)
                 out.count("histories")
                 out.count("random_histories")
                 if out.violations:
